@@ -417,6 +417,9 @@ def gen_rules(r: random.Random, profile: str) -> Dict[str, Any]:
                                "orderVolume": r.randint(1, 50), "orderTimeLength": r.randint(1, 6),
                                "enabled": r.random() < 0.85}
             s.setdefault("events", []).append(name)
+        # shocks landing on the last step of a generation chunk / storage chunk need small chunks in short runs
+        w.knobs["generation_chunk"] = r.choice([None, 2, 3, 4, 5, 7])
+        w.knobs["storage_chunk"] = r.choice([None, None, 3, 5])
         return w.scenario()
     if P == "limit":
         n = r.randint(2, 4)
